@@ -222,6 +222,33 @@ impl ValidationOutputFilters {
     //@end
 }
 
+// ---- the file: SlurmFile::drop_payload is the entry point the property names ---------------------------
+//@item src/slurm.rs :: struct SlurmVersion pubfields keepderive=Clone,Eq,PartialEq
+impl SlurmVersion {
+    //@fn src/slurm.rs :: impl SlurmVersion :: v1
+    //@spec
+        ensures r.version == 1,
+    //@/spec
+    //@end
+    //@fn src/slurm.rs :: impl SlurmVersion :: v2
+    //@spec
+        ensures r.version == 2,
+    //@/spec
+    //@end
+}
+/// opaque stand-in for the assertions part of the file (irrelevant to dropping)
+#[verifier::external_body]
+pub struct LocallyAddedAssertions { _o: u8 }
+//@item src/slurm.rs :: pub struct SlurmFile pubfields
+impl SlurmFile {
+    //@fn src/slurm.rs :: impl SlurmFile :: drop_payload
+    //@spec
+        // whatever the version field says: dropped exactly when some filter of the payload's kind matches
+        ensures r == filters_drop(self.filters, *payload),
+    //@/spec
+    //@end
+}
+
 // ---- the assertions -----------------------------------------------------------------------
 //@item src/slurm.rs :: pub struct PrefixAssertion
 //@item src/slurm.rs :: pub struct AspaAssertion
